@@ -484,6 +484,7 @@ func runC06(c *Ctx, w *World, r *Report) {
 		}
 		r.Check(bad == "", "R-EXACT", "pbcmpl.Unmarshal|body-length", w.Pos(fn.Pos()), bad, "body read length = GetBodySize()")
 	}
+	reportSuccessViaDecode(w, r, fns["pbcmpl.Unmarshal"])
 	// shared with C07 (agreement of the size figures needs the counts)
 	ReportCount(w, r, "pbcmpl.Marshal", 0, isParamStream(fns["pbcmpl.Marshal"], 0))
 	ReportCount(w, r, "pbcmpl.Unmarshal", 0, isParamStream(fns["pbcmpl.Unmarshal"], 0))
